@@ -388,12 +388,13 @@ Qed.
 
 Theorem step_ws_step v o : ws_step (v_ws v) (v_ws (fst (fst (step E v o)))).
 Proof.
-  destruct o as [r i s cert maxp|m|h b|r i]; cbn [step].
+  destruct o as [r i s cert maxp|m|h b|r i|]; cbn [step].
   - pose proof (update_context_step v r i s cert maxp) as G.
     destruct (update_context E v r i s cert maxp) as [v' e]. exact G.
   - apply process_step.
   - destruct b; apply ws_grow_step, ws_grow_refl.
   - apply ws_grow_step, ws_grow_refl.
+  - intros key w' [].
 Qed.
 
 (* the flag is kept: if every wrapper kept for [key] has [a] flagged in its
